@@ -41,6 +41,14 @@ const preludeCore = `
 (declare-fun utf8_rune (Str Int) Int)
 (declare-fun utf8_width (Str Int) Int)
 (declare-fun f2i_oor (Real Int) Int)
+(declare-fun ccell_Int (Int) Int)
+(declare-fun ccell_arr (Int) Int)
+(declare-fun ccell_off (Int) Int)
+(declare-fun ccell_len (Int) Int)
+(declare-fun ccell_cap (Int) Int)
+(declare-fun ccell_Bool (Int) Bool)
+(declare-fun ccell_Real (Int) Real)
+(declare-fun ccell_Str (Int) Str)
 (declare-fun tquo (Int Int) Int)
 (declare-fun trem (Int Int) Int)
 (define-fun fdiv ((fdiv!a Int) (fdiv!b Int)) Int (ite (and (< fdiv!a 0) (not (= (trem fdiv!a fdiv!b) 0))) (- (tquo fdiv!a fdiv!b) 1) (tquo fdiv!a fdiv!b)))
@@ -465,7 +473,8 @@ func (e *Engine) solveOne(vc *VC, file string, solvers []SolverCfg, timeoutMs in
 	}
 	vc.Solver = strings.Join(parts, ",")
 	vc.Output = outs[solvers[0].Name]
-	// candidate counterexample from the quantifier-free relaxation (validated only by replay)
+	// the quantifier-free relaxation drops hypotheses only: if it is already unsatisfiable the
+	// obligation holds; a model of it is a candidate counterexample (validated only by replay)
 	if strings.Contains(vc.Goal, "(forall ") || vc.Goal == "false" {
 		return
 	}
@@ -474,6 +483,10 @@ func (e *Engine) solveOne(vc *VC, file string, solvers []SolverCfg, timeoutMs in
 	for _, s := range solvers[:2] {
 		r, out, ms := runSolver(context.Background(), s, rf, timeoutMs)
 		vc.Ms += ms
+		if r == "unsat" {
+			vc.Result, vc.Solver, vc.Output = "unsat", s.Name+"(without quantified hypotheses)", out
+			return
+		}
 		if r == "sat" {
 			vc.Model = out
 			vc.Candidate = true
